@@ -236,6 +236,8 @@ func buildOps() {
 			un("Negate", func(v, p *Point) *Point { return v.Negate(p) }, ref.Pt.Neg)
 			un("Set", func(v, p *Point) *Point { return v.Set(p) }, func(a ref.Pt) ref.Pt { return a })
 			un("ConditionalNegate(ctrl=1)", func(v, p *Point) *Point { return v.ConditionalNegate(p, 1) }, ref.Pt.Neg)
+			un("ConditionalNegate(ctrl=2)", func(v, p *Point) *Point { return v.ConditionalNegate(p, 2) }, ref.Pt.Neg)
+			un("ConditionalNegate(ctrl=0)", func(v, p *Point) *Point { return v.ConditionalNegate(p, 0) }, func(a ref.Pt) ref.Pt { return a })
 			for s := 0; s < nS; s++ {
 				s := s
 				add(opinst{fmt.Sprintf("P%d.ScalarMult(S%d,P%d)", v, s, p), []int{p}, func(ps []*Point, ss []*Scalar) (bool, error) { return ps[v].ScalarMult(ss[s], ps[p]) == ps[v], nil },
@@ -255,6 +257,10 @@ func buildOps() {
 				bin("Add", func(v, p, q *Point) *Point { return v.Add(p, q) }, ref.Pt.Add)
 				bin("Subtract", func(v, p, q *Point) *Point { return v.Subtract(p, q) }, ref.Pt.Sub)
 				bin("ConditionalSelect(ctrl=1)", func(v, p, q *Point) *Point { return v.ConditionalSelect(p, q, 1) }, func(a, b ref.Pt) ref.Pt { return b })
+				if p != q {
+					bin("ConditionalSelect(ctrl=1<<63)", func(v, p, q *Point) *Point { return v.ConditionalSelect(p, q, 1<<63) }, func(a, b ref.Pt) ref.Pt { return b })
+					bin("ConditionalSelect(ctrl=0)", func(v, p, q *Point) *Point { return v.ConditionalSelect(p, q, 0) }, func(a, b ref.Pt) ref.Pt { return a })
+				}
 				for _, vt := range []bool{false, true} {
 					vt := vt
 					if (p+q+v)%2 == 1 && p != v && q != v {
